@@ -1001,19 +1001,40 @@ def _cross_module_moves(forest, inv):
                 if r < 0.4 or m in taken_m or n in taken_n:
                     continue
                 node = b_new_f[n] if kind == 'f' else b_new_c[n]
-                free = _maybe_free(node) if kind == 'f' else {x.id for x in ast.walk(node.value) if isinstance(x, ast.Name)}
-                same = True
-                for name in free:
-                    if name == n or hasattr(_b, name):
-                        continue
-                    if name in a_imports and name in b_imports and a_imports[name] == b_imports[name]:
-                        continue
-                    # module A imports the very object module B defines under this name
-                    ai = a_imports.get(name)
-                    if ai is not None and ai[0] == 'from' and (ai[2] or '').split('.')[-1] == b_mod and ai[3] == name and name in b_defined:
-                        continue
-                    same = False
-                    break
+
+                def free_of(nd):
+                    return _maybe_free(nd) if isinstance(nd, ast.FunctionDef) else {x.id for x in ast.walk(nd.value) if isinstance(x, ast.Name)}
+                # the definition and the new private definitions of module B it rests on (copied along), transitively
+                deps, todo, same, extra_imports, qualify = {}, [(n, node)], True, {}, set()
+                a_defined = {st.name for st in a_tree0.body if isinstance(st, (ast.FunctionDef, ast.ClassDef))} | \
+                    {t.id for st in a_tree0.body if isinstance(st, ast.Assign) for t in st.targets if isinstance(t, ast.Name)}
+                seen_names = {n}
+                while todo and same:
+                    cur_name, cur = todo.pop()
+                    for name in free_of(cur):
+                        if name == cur_name or name in seen_names or hasattr(_b, name):
+                            continue
+                        if name in a_imports and name in b_imports and a_imports[name] == b_imports[name]:
+                            continue
+                        ai = a_imports.get(name)
+                        if ai is not None and ai[0] == 'from' and (ai[2] or '').split('.')[-1] == b_mod and ai[3] == name and name in b_defined:
+                            continue
+                        if name in b_defined and name not in b_new_f and name not in b_new_c and b_aliases and name not in a_defined and name not in a_imports \
+                                and cur is node and not (isinstance(cur, ast.FunctionDef) and name in (_fn_locals(cur) | _params(cur))):
+                            qualify.add(name)               # a name of module B itself: reached through module A's alias of B in the copy
+                            continue
+                        bi = b_imports.get(name)
+                        if bi is not None and ((bi[0] == 'from' and bi[1] == 0) or (bi[0] == 'import' and not bi[1].startswith('segno'))) and name not in a_imports and name not in a_defined:
+                            extra_imports[name] = bi        # a standard-library import of module B that module A does not have: copied along
+                            continue
+                        dep = b_new_f.get(name) or b_new_c.get(name)
+                        if dep is not None and name not in a_defined and len(deps) < 8:
+                            deps[name] = dep
+                            seen_names.add(name)
+                            todo.append((name, dep))
+                            continue
+                        same = False
+                        break
                 if not same:
                     continue
                 taken_m.add(m)
@@ -1023,6 +1044,15 @@ def _cross_module_moves(forest, inv):
                 for x in ast.walk(cp):
                     if hasattr(x, '_parent'):
                         del x._parent
+                if qualify:
+                    alias = sorted(b_aliases)[0]
+
+                    class _Q(ast.NodeTransformer):
+                        def visit_Name(self, x):
+                            if x.id in qualify and isinstance(x.ctx, ast.Load):
+                                return ast.copy_location(ast.Attribute(value=ast.Name(id=alias, ctx=ast.Load()), attr=x.id, ctx=ast.Load()), x)
+                            return x
+                    cp = _Q().visit(cp)
                 if kind == 'f':
                     cp.name = m
                     _apply_renames(cp, {n: m})
@@ -1047,6 +1077,21 @@ def _cross_module_moves(forest, inv):
                         stx.names = [al for al in stx.names if not ((al.asname or al.name) in local_names)] or stx.names
                 pos = next((i for i, stx in enumerate(at.body) if isinstance(stx, (ast.FunctionDef, ast.ClassDef))), len(at.body))
                 at.body.insert(pos, cp)
+                for dn, dnode in deps.items():
+                    if any(getattr(stx, 'name', None) == dn or (isinstance(stx, ast.Assign) and any(isinstance(t, ast.Name) and t.id == dn for t in stx.targets)) for stx in at.body):
+                        continue
+                    dcp = copy.deepcopy(dnode)
+                    for x in ast.walk(dcp):
+                        if hasattr(x, '_parent'):
+                            del x._parent
+                    at.body.insert(pos, dcp)
+                for local, bi in extra_imports.items():
+                    if bi[0] == 'from':
+                        imp = ast.ImportFrom(module=bi[2], names=[ast.alias(name=bi[3], asname=None if local == bi[3] else local)], level=0)
+                    else:
+                        imp = ast.Import(names=[ast.alias(name=bi[1], asname=bi[2])])
+                    at.body.insert(pos, imp)
+                    a_imports[local] = bi
                 done.setdefault(a_mod, {})[f'{b_mod}.{n} -> {a_mod}.{m}'] = round(min(r, 1.0), 2)
     out_forest = forest
     for m, t in trees.items():
